@@ -118,8 +118,19 @@ func c03oKind(n *xhtml.Node, c c03oCtx) byte {
 	return 'i' // inline, display:contents, display:none in body, unknown and custom elements
 }
 
-func c03oEmptyRaw(n *xhtml.Node) bool { // <script></script> / <style></style> without attributes: removed by the minifier
-	return n.Namespace == "" && (n.Data == "script" || n.Data == "style") && len(n.Attr) == 0 && n.FirstChild == nil
+// c03oEmptyRaw: an empty inline script (no src) or an empty style element has no effect whatever its other attributes are;
+// the minifier removes `<script></script>` / `<style></style>` when they are (or, after dropping a default `type`,
+// `media`, become) attribute-less.  Such elements are ignored on both sides.
+func c03oEmptyRaw(n *xhtml.Node) bool {
+	if n.Namespace != "" || (n.Data != "script" && n.Data != "style") || n.FirstChild != nil {
+		return false
+	}
+	for _, a := range n.Attr {
+		if a.Key == "src" || a.Key == "id" && a.Val != "" {
+			return false
+		}
+	}
+	return true
 }
 
 // c03oFlatten appends the items of the subtree of n.  A display:none element outside head generates no box: its
@@ -438,6 +449,8 @@ func c03oAttrs(n *xhtml.Node) map[string]string {
 				}
 				v = strings.Join(toks, ",")
 			}
+		case el == "meta" && key == "name":
+			v = strings.Trim(v, c03oWS) // the minifier trims the name of a meta element that has a content attribute
 		case c03oTrim[key]:
 			v = c03oCollapse(v)
 		}
